@@ -133,6 +133,71 @@ func init() {
 			e.distinct[fmt.Sprintf("full-window-%d/%d", wc.w1, wc.w2)] = true
 			stop()
 		}
+		// refusals while the window is full do not consume identifiers: after a
+		// whole identifier space of refusals and one acknowledgement the next
+		// publish must not get the identifier of the transfer still in flight
+		if e.shard == 0 {
+			cfg := baseConfig()
+			cfg.PauseTimeout = 0
+			cfg.AtLeastOnceMax, cfg.ExactlyOnceMax = 2, 2
+			e.at("refusals around the identifier space, window 2")
+			store := newPlainStore()
+			c, conn, stop, err := onlineClient(cfg, store)
+			if err == nil {
+				conn.mu.Lock()
+				conn.mute = true
+				conn.mu.Unlock()
+				conn.reset()
+				c.PublishAtLeastOnce([]byte("a"), "t")
+				c.PublishAtLeastOnce([]byte("b"), "t")
+				pk, _ := conn.packets()
+				if len(pk) == 2 && pk[0].Type == tPUBLISH && pk[1].Type == tPUBLISH {
+					refused := 0
+					for i := 0; i < 16383; i++ {
+						if _, err := c.PublishAtLeastOnce([]byte("r"), "t"); errors.Is(err, mqtt.ErrMax) {
+							refused++
+						}
+						e.evals.Add(1)
+					}
+					conn.mu.Lock()
+					conn.in = append(conn.in, encAck(tPUBACK, pk[0].ID)...)
+					conn.cond.Broadcast()
+					conn.mu.Unlock()
+					gone := false
+					for i := 0; i < 5000 && !gone; i++ {
+						if v, _ := store.Load(uint(pk[0].ID)); v == nil {
+							gone = true
+						} else {
+							time.Sleep(time.Millisecond)
+						}
+					}
+					// the slot is free a moment after the record is deleted
+					var perr error = mqtt.ErrMax
+					time.Sleep(50 * time.Millisecond)
+					for i := 0; gone && i < 5000 && errors.Is(perr, mqtt.ErrMax); i++ {
+						if i > 0 {
+							time.Sleep(time.Millisecond)
+						}
+						_, perr = c.PublishAtLeastOnce([]byte("c"), "t")
+					}
+					if gone && perr == nil && refused == 16383 {
+						// two transfers in flight: the record of the second one and a new one
+						keys, _ := store.List()
+						n := 0
+						for _, k := range keys {
+							if k >= 0x8000 && k < 0xc000 {
+								n++
+							}
+						}
+						if v, _ := store.Load(uint(pk[1].ID)); n < 2 || v == nil {
+							e.violate("C17", "identifier-reused-in-flight", "after %d refusals and the acknowledgement of %#04x a publish was accepted while %#04x is in flight, and the store holds %d at-least-once records (keys %v): one identifier serves two transfers", refused, pk[0].ID, pk[1].ID, n, keys)
+						}
+						e.distinct["refusals-around-space"] = true
+					}
+				}
+				stop()
+			}
+		}
 	}
 
 	// one request stays unanswered while the 13-bit request counter wraps
